@@ -23,7 +23,19 @@ impl PanicRec {
 pub fn normalise_msg(msg: &str) -> String {
     let mut out = String::new();
     let mut in_num = false;
+    let mut in_str = false;
     for c in msg.chars() {
+        // quoted strings (type names, identifiers) are not part of a signature
+        if c == '"' {
+            in_str = !in_str;
+            if in_str {
+                out.push('S');
+            }
+            continue;
+        }
+        if in_str {
+            continue;
+        }
         if c.is_ascii_digit() {
             if !in_num {
                 out.push('N');
@@ -83,6 +95,7 @@ fn first_repo_frame(location: &str) -> String {
 }
 
 fn strip_hash(sym: &str) -> String {
+    let sym = &strip_generics(sym);
     // drop trailing ::h0123456789abcdef
     if let Some(pos) = sym.rfind("::h") {
         let tail = &sym[pos + 3..];
@@ -132,5 +145,24 @@ pub fn guarded<T>(f: impl FnOnce() -> T) -> Result<T, PanicRec> {
             location: "?".into(),
             frame: "?".into(),
         })),
+    }
+}
+
+/// `scope_pushed<(), Error, closure<shard_5::g_13::T1>>` -> `scope_pushed`: monomorphisation arguments name zoo types
+fn strip_generics(sym: &str) -> String {
+    let mut out = String::new();
+    let mut depth = 0i32;
+    for c in sym.chars() {
+        match c {
+            '<' => depth += 1,
+            '>' => depth -= 1,
+            _ if depth == 0 => out.push(c),
+            _ => {}
+        }
+    }
+    if out.is_empty() {
+        sym.to_string()
+    } else {
+        out
     }
 }
